@@ -454,13 +454,107 @@ type D struct {
 	x int
 }
 
-// NegPromoted: the mutex and the counter are promoted fields of the embedded Base; without type information the
-// extractor cannot resolve them and must say so (fid 0 / <promoted>), not drop the access.
-func (d *D) NegPromoted() {
+// PosPromoted: the mutex and the counter are promoted fields of the embedded Base (a struct of the same package): they
+// are resolved through the struct declarations
+func (d *D) PosPromoted() {
 	d.mu.Lock()
 	defer d.mu.Unlock()
 	d.n++
 	d.x = 1
 }
 
+// the same fields through the embedded field's name
+func (d *D) PosPromotedExplicitPath() {
+	d.Base.mu.Lock()
+	defer d.mu.Unlock()
+	d.Base.n++
+}
+
+// conservative: a promoted METHOD is recorded as a call on the embedded object made without D's lock
 func (d *D) NegPromotedMethod() { d.Inc() }
+
+// ---- embedded mutex ---------------------------------------------------------------------------------------
+
+type E struct {
+	sync.RWMutex
+	v int
+}
+
+func (e *E) PosEmbeddedMutexPromotedCall() int {
+	e.RLock()
+	defer e.RUnlock()
+	return e.v
+}
+
+func (e *E) PosEmbeddedMutexExplicitPath(v int) {
+	e.RWMutex.Lock()
+	e.v = v
+	e.Unlock() // the same lock as e.RWMutex
+}
+
+func (e *E) NegEmbeddedMutexNotTaken(v int) { e.v = v }
+
+// ---- locks taken through tiny helpers ---------------------------------------------------------------------
+
+type H struct {
+	mu sync.RWMutex
+	v  int
+}
+
+func (h *H) rlock() func() {
+	h.mu.RLock()
+	return h.mu.RUnlock
+}
+
+func (h *H) wlock() func() {
+	h.mu.Lock()
+	return func() { h.mu.Unlock() }
+}
+
+func (h *H) lock()   { h.mu.Lock() }
+func (h *H) unlock() { h.mu.Unlock() }
+
+func (h *H) PosDeferReleaserHelper() int {
+	defer h.rlock()()
+	return h.v
+}
+
+func (h *H) PosReleaserInLocal(v int) {
+	release := h.wlock()
+	h.v = v
+	release()
+}
+
+func (h *H) PosReleaserInLocalDeferred(v int) {
+	release := h.wlock()
+	defer release()
+	h.v = v
+}
+
+func (h *H) PosLockUnlockWrappers(v int) {
+	h.lock()
+	defer h.unlock()
+	h.v = v
+}
+
+func (h *H) NegWrapperLockNeverReleased(v int) {
+	h.lock()
+	h.v = v
+}
+
+func (h *H) NegReleaserDropped(v int) {
+	h.wlock()
+	h.v = v
+}
+
+// ---- a lock reached through a local that comes from a call result -----------------------------------------
+
+func (h *H) derive() *H { return &H{v: h.v} }
+
+// the lock of ANOTHER instance of the same type: named by type + field, not the receiver's own lock
+func (h *H) NegLockOfDerivedInstance(v int) {
+	d := h.derive()
+	d.mu.Lock()
+	defer d.mu.Unlock()
+	h.v = v
+}
